@@ -1,6 +1,13 @@
 """Driver C15: run the periodic boundaries of jellyfysh.setting (hypercubic / hypercuboid) on bit-level inputs.
 
-Payload: {"groups": [{"setting": ["cubic", dim, L_bits] | ["cuboid", [L_bits, ...]], "ops": [...]}, ...]}
+Payload: {"groups": [{"setting": ["cubic", dim, L_bits] | ["cuboid", [L_bits, ...]], "ops": [...],
+                      "via": "own" | "cuboid"  (optional; "cuboid": use the HypercuboidPeriodicBoundaries class, which is
+                             usable under a hypercubic setting because the cubic setter initialises the cuboid module),
+                      "history": [setting, ...] (optional; settings initialised, used once and reset before, in the
+                             same process)}, ...]}
+All groups of a payload run in ONE process in the given order: the history of setting (re-)initialisations is part of
+the input.  After every initialisation both classes are used once (touch) so that a group's effect on later groups
+depends on its setting only.
 Output:  {"out": [[result per op] per group], "init": ["ok" | ["EXC", name] | ["ERR", text] per group],
           "stored": [[length bits ...], [half-length bits ...]] per group (what the setting module holds)}
 """
@@ -32,6 +39,19 @@ def init_setting(st):
     if not isinstance(pb, cls) or mod.periodic_boundaries is not pb:
         return None, stored
     return pb, stored
+
+
+def touch(st):
+    """Use both periodic-boundaries classes once, as an application would, ignoring errors."""
+    dim = int(st[1]) if st[0] == "cubic" else len(st[1])
+    for cls in (hypercubic_setting.HypercubicPeriodicBoundaries, hypercuboid_setting.HypercuboidPeriodicBoundaries):
+        for f in (lambda: cls.correct_position([0.0] * dim), lambda: cls.correct_separation([0.0] * dim),
+                  lambda: cls.separation_vector([0.0] * dim, [0.0] * dim), lambda: cls.correct_position_entry(0.0, 0),
+                  lambda: cls.correct_separation_entry(0.0, 0), lambda: cls.next_image(0.0, 0)):
+            try:
+                f()
+            except Exception:  # noqa
+                pass
 
 
 def run_op(pb, op):
@@ -69,11 +89,27 @@ groups = read_payload()["groups"]
 out, inits, stored_all = [], [], []
 for g in groups:
     setting.reset()
+    for h in g.get("history") or []:
+        try:
+            init_setting(h)
+            touch(h)
+        except Exception:  # noqa
+            pass
+        setting.reset()
     pb, stored, init = None, [[], []], "ok"
     try:
         pb, stored = init_setting(g["setting"])
         if pb is None:
             init = ["ERR", "setting.periodic_boundaries is not an instance of the expected class"]
+        else:
+            touch(g["setting"])
+            if g.get("via") == "cuboid":
+                if hypercuboid_setting.system_lengths is None:
+                    init = ["ERR", "hypercuboid_setting is not initialised under this setting"]
+                else:
+                    pb = hypercuboid_setting.HypercuboidPeriodicBoundaries
+                    stored = [[f2b(x) for x in hypercuboid_setting.system_lengths],
+                              [f2b(x) for x in hypercuboid_setting.system_lengths_over_two]]
     except Exception as e:  # noqa
         init = ["EXC", exc_enum(e)]
     res = []
